@@ -11,7 +11,7 @@ for p in selftest/mutants/${1:-C}*.patch; do
   if ! git -C /repo apply "$PWD/$p" 2>/dev/null; then echo "SKIP (does not apply) $p"; continue; fi
   if ! (cd /repo && GOFLAGS=-mod=mod GOPROXY=off GOSUMDB=off GOTOOLCHAIN=local go build ./... >/dev/null 2>&1); then
      echo "SKIP (does not compile) $p"; git -C /repo apply -R "$PWD/$p" ; continue; fi
-  out=$(bin/vcheck check -prop "$prop" -no-evidence 2>/dev/null); rc=$?
+  out=$(bin/vcheck check -prop "$prop" -no-evidence 2>/tmp/selftest.err); rc=$?; [ $rc -eq 2 ] && tail -3 /tmp/selftest.err
   git -C /repo apply -R "$PWD/$p"
   if [ $rc -eq 1 ]; then killed=$((killed+1)); echo "KILLED  $p  ($(echo "$out" | grep -c '^VIOLATION') violations: $(echo "$out" | grep '^FAILED' | head -1 | sed 's/.*function=//' | cut -c1-90))";
   else fail=1; echo "MISSED  $p (rc=$rc)"; fi
